@@ -649,6 +649,22 @@ def run_json(ctx, rng, x, what, support, transport, tmp):
 
 def run_dict(ctx, rng, support, tmp, with_empty_list=False):
     d = make_dict(ctx, rng, support, with_empty_list=with_empty_list)
+    if rng.random() < 0.25:
+        # many structures in one dictionary: the placeholders get two- and three-digit indices
+        # (a reader that looks at the last digit only mixes them up; added after seeded change seed4-C11)
+        many = int(rng.choice([11, 12, 21, 37, 101]))
+        fam = family(ctx, rng, support, big=True)
+        bulk = {}
+        for k in range(many):
+            o = fam.member()
+            o.tag = 'member %d' % k
+            tgt = bulk if k % 3 else bulk.setdefault('deep%d' % (k % 2), {})
+            if k % 5 == 4:
+                tgt.setdefault('mixed', []).extend([o, 'sep%d' % k])
+            else:
+                tgt['m%03d' % k] = o
+        d['bulk'] = bulk
+        ctx.count('dicts_with_more_than_ten_structures')
     if with_empty_list:
         d[str(rng.choice(['empty', 'no members']))] = []       # keys outside DICT_KEYS: no structure is overwritten
     gz = bool(rng.integers(0, 2))
